@@ -51,6 +51,13 @@
      `r:-` when the unit does not run (404). `G k` then counts the ids address k has been given over all incarnations.
      `C k` while bmp-in does not run is skipped. The expectation of such a case comes from E2eModel alone (eng_pipe is not
      asked); `M` prints `- -`.
+   - A second connection of a connected router (E2eModel.d_step, extracted): `C2 k` = router k connects again while its first
+     connection is open (which stays open, silent): the accept loop finds the id the register holds for (unit, address) - `G k`
+     stays 1, `RL` (routers listed) stays - and replaces the entries of that id by the new session's; `X2 k` = the old connection
+     ends at last: its task withdraws ids_for_parent(router id) - the peers of the NEW session - and removes the entries of the id:
+     model = routes of the live session withdrawn, router not listed (known finding C14-old-task-removes-new-session, class KD),
+     spec = only the routes the new session has not announced itself are withdrawn, the router is listed. The expectation of such
+     a case comes from E2eModel alone; `M` prints `- -`.
    - A bgp-tcp-in unit (E2eModel.b_step, extracted): a case with B? ops has a unit `bgp-in` that the RIB units source too.
      `BO k` = a speaker of address k connects and sends OPEN: `o:<my_asn>,<hold time>` of the configuration the unit holds NOW
      when that configuration has a peer entry for k (the session gets an ingress id of its own), `o:-` otherwise; `BA` = an
@@ -85,6 +92,7 @@ type item =
   | Reload of int option
   | Label of int            (* V k *)
   | Ids of int              (* G k *)
+  | Second of int | OldEnds of int | ListedD
   | BOpenI of int | BUpdI of string list | BCloseI of int | BPeerI of int * int | BAsnI of int | BMetricsI
 
 let split3 (s : string) : string list * string list * string list =
@@ -149,7 +157,8 @@ let run_case (line : string) : string =
   let ops = Stdlib.List.filter (fun o -> o <> []) ops in
   let ingress = Stdlib.List.exists (fun o -> Stdlib.List.mem (Stdlib.List.hd o) ["J"; "JL"]) ops in
   let bgp = Stdlib.List.exists (fun o -> Stdlib.List.mem (Stdlib.List.hd o) ["BO"; "BA"; "BZ"; "BP"; "BS"; "BM"]) ops in
-  let scripted = ingress || bgp || Stdlib.List.exists (fun o -> Stdlib.List.mem (Stdlib.List.hd o) ["F"; "FH"; "W"; "Y"; "P"; "K"; "N"]) ops in
+  let dup = Stdlib.List.exists (fun o -> Stdlib.List.mem (Stdlib.List.hd o) ["C2"; "X2"; "RL"]) ops in
+  let scripted = ingress || bgp || dup || Stdlib.List.exists (fun o -> Stdlib.List.mem (Stdlib.List.hd o) ["F"; "FH"; "W"; "Y"; "P"; "K"; "N"]) ops in
   let startup = match ops with ("F" :: s :: _) :: _ -> int_of_string s | _ -> 0 in
   (* the leading F / K ops describe the start-up configuration (F only as the first op) *)
   let max_vribs = 3 in
@@ -162,6 +171,7 @@ let run_case (line : string) : string =
     go 0 0 ops in
   (* pass 1: what the engine does with each op, and the case the pipeline model sees *)
   let live = ref [] in
+  let parked = ref [] in
   (* bmp-in: in the file / running (pass 1 follows the reloads to know which connections exist) *)
   let want1 = ref true and run1 = ref true in
   let pipe_ops = ref [] in
@@ -188,6 +198,12 @@ let run_case (line : string) : string =
       | "G" -> Ids (i 1)
       | "C" -> let k = i 1 in
           if Stdlib.List.mem k !live || (ingress && k < 4 && not !run1) then Skip else (live := k :: !live; push self; Conn k)
+      | "C2" -> let k = i 1 in
+          if Stdlib.List.mem k !live then (if Stdlib.List.mem k !parked then Skip else (parked := k :: !parked; Second k))
+          else (live := k :: !live; push ("C " ^ string_of_int k); Conn k)
+      | "X2" -> let k = i 1 in
+          if Stdlib.List.mem k !parked then (parked := Stdlib.List.filter (fun x -> x <> k) !parked; OldEnds k) else Skip
+      | "RL" -> ListedD
       | "X" -> let k = i 1 in
           if Stdlib.List.mem k !live then (live := Stdlib.List.filter (fun x -> x <> k) !live; push self; Disc k)
           else Skip
@@ -201,11 +217,12 @@ let run_case (line : string) : string =
       | "BS" -> BAsnI (min 1 (i 1))
       | "BM" -> BMetricsI
       | s -> failwith ("bad op " ^ s)) ops in
-  let pipe_line = if ingress then "" else join ";" (Stdlib.List.rev !pipe_ops) in
+  let ingress_or_dup = ingress || dup in
+  let pipe_line = if ingress_or_dup then "" else join ";" (Stdlib.List.rev !pipe_ops) in
   let (pm, ps, pc) = if pipe_line = "" then ([], [], []) else split3 (Eng_pipe.run_case pipe_line) in
   let pm = ref pm and ps = ref ps and pc = ref pc in
   let next () =
-    if ingress then ("-", "-", ".") else
+    if ingress_or_dup then ("-", "-", ".") else
     match !pm, !ps, !pc with
     | a :: ta, b :: tb, c :: tc -> pm := ta; ps := tb; pc := tc; (a, b, c)
     | _ -> failwith "pipe output too short" in
@@ -269,8 +286,20 @@ let run_case (line : string) : string =
           let es' = Stdlib.List.map (fun e -> match parse e with Some (k, c, rest) -> Printf.sprintf "b%dc%d%s" k (idx k c) rest | None -> e) es in
           tag ^ join "," (Stdlib.List.sort compare es')
         end in
+  let dst = ref (d_init (script_of startup) (n startup_vribs)) in
+  let ghost_ever = ref false in
+  let dstep (o : dop) =
+    let before = born !est.es_rib2 in
+    dst := d_step !dst o; est := !dst.ds_e;
+    if born !est.es_rib2 <> before then hist2 := [] in
   let estep (o : eop) =
-    if bgp then begin
+    if dup then begin
+      (match o with
+       | EW (WConnect k) -> if d_rid !dst k = None then record (WConnect k)
+       | EW wo -> record wo
+       | _ -> ());
+      dstep (DE o)
+    end else if bgp then begin
       (match o with EW wo -> record wo | _ -> ());
       (match o with
        | EReload -> bstep_both (BReload []) (BReload bgp_addrs)
@@ -306,6 +335,7 @@ let run_case (line : string) : string =
     | None -> let t = tag ^ ":-" in emit t t "."
     | Some (r, sw, hist) ->
         let (a, b, c) = answer tag !est.es_w.w_ids hist r.ru_rib sw af pfx in
+        let c = if dup && !ghost_ever && a <> b then (if c = "?" || c = "K3" then "KD" else c ^ "KD") else c in
         if not bgp then emit a b c else begin
           (* the same unit on the schedule in which no ended session was heard *)
           let rn = (if tag = "p" then (match !bn.bs_e.es_rib2 with Some r -> r | None -> r) else !bn.bs_e.es_rib) in
@@ -365,10 +395,10 @@ let run_case (line : string) : string =
       | Script s -> estep (EScript (script_of s)); emit "-" "-" "."
       | Unit2 y -> estep (EUnit (n y)); emit "-" "-" "."
       | Msg (k, toks) ->
-          let a_ing = if ingress then outcome_tok (wop_of toks) else "-" in
+          let a_ing = if ingress_or_dup then outcome_tok (wop_of toks) else "-" in
           estep (EW (wop_of toks));
           let (a, _, _) = next () in
-          let a = if ingress then a_ing else a in
+          let a = if ingress_or_dup then a_ing else a in
           (match Stdlib.List.assoc_opt k !conn with
            | Some (cur, _) ->
                (* the message is counted under the router id the session has; when its outcome is a state transition
@@ -381,6 +411,11 @@ let run_case (line : string) : string =
           uc := uc_step !uc (WMsg (n k, MInit)); emit "-" "-" "."
       | Conn k ->
           ignore (next ()); estep (EW (WConnect (n k))); uc := uc_step !uc (WConnect (n k)); set k (!variant, None);
+          (if dup then match d_rid !dst (n k) with
+             | Some rid ->
+                 let old = (match Stdlib.List.assoc_opt k !given with Some l -> l | None -> []) in
+                 if not (Stdlib.List.mem rid old) then given := (k, rid :: old) :: Stdlib.List.remove_assoc k !given
+             | None -> ());
           (if ingress then match i_rid !ist (n k) with
              | Some rid ->
                  let old = (match Stdlib.List.assoc_opt k !given with Some l -> l | None -> []) in
@@ -410,7 +445,7 @@ let run_case (line : string) : string =
            | Some (_, Some v) -> let t = Printf.sprintf "t:%d" v in emit t t ".")
       | Ids k ->
           if not (Stdlib.List.mem_assoc k !conn) then emit "-" "-" "."
-          else if ingress then begin
+          else if ingress_or_dup then begin
             let t = Printf.sprintf "g:%d" (match Stdlib.List.assoc_opt k !given with Some l -> Stdlib.List.length l | None -> 0) in
             emit t t "."
           end else emit "g:1" "g:1" "."
@@ -444,7 +479,28 @@ let run_case (line : string) : string =
       | BMetricsI ->
           let t = Printf.sprintf "n:%d,%d,%d" (int_of_n !ba.bs_accepted) (int_of_n !ba.bs_lost) (int_of_n !ba.bs_disc) in
           emit t t "."
-      | Metrics _ when ingress -> emit "-" "-" "."; emit "-" "-" "."
+      | Second k ->
+          dstep (DSecond (n k)); set k (!variant, None);
+          (match d_rid !dst (n k) with
+           | Some rid ->
+               let old = (match Stdlib.List.assoc_opt k !given with Some l -> l | None -> []) in
+               if not (Stdlib.List.mem rid old) then given := (k, rid :: old) :: Stdlib.List.remove_assoc k !given
+           | None -> ());
+          emit "-" "-" "."
+      | OldEnds k ->
+          (match d_old !dst (n k) with
+           | Some rid ->
+               let u = RibModel.UWithdrawBulk (IngressModel.reg_ids_for_parent !est.es_w.w_reg rid) in
+               hist1 := !hist1 @ [u];
+               (match !est.es_rib2 with Some _ -> hist2 := !hist2 @ [u] | None -> ());
+               if d_rid !dst (n k) <> None then ghost_ever := true
+           | None -> ());
+          dstep (DOldEnds (n k));
+          emit "-" "-" "."
+      | ListedD ->
+          let a = Printf.sprintf "r:%d" (int_of_n (d_listed_code !dst)) and b = Printf.sprintf "r:%d" (int_of_n (d_listed_spec !dst)) in
+          emit a b (if a = b then "." else "KD")
+      | Metrics _ when ingress_or_dup -> emit "-" "-" "."; emit "-" "-" "."
       | Metrics _ ->
           let (a, b, c) = next () in
           if starts "m:" a then emit a b c else emit "-" "-" ".";
